@@ -1,0 +1,38 @@
+// Copyright 2022-2026 Sauce Labs Inc., all rights reserved.
+//
+// This Source Code Form is subject to the terms of the Mozilla Public
+// License, v. 2.0. If a copy of the MPL was not distributed with this
+// file, You can obtain one at https://mozilla.org/MPL/2.0/.
+
+//go:build verif
+
+// Package h2rig re-exports the in-memory HTTP/2 relay rig of
+// internal/martian/h2 for the verification harness in /verif (Go's internal
+// rule forbids importing it from another module).  It is compiled only with
+// the build tag "verif" and adds no behaviour.
+package h2rig
+
+import (
+	"io"
+
+	"github.com/saucelabs/forwarder/internal/martian/h2"
+)
+
+type (
+	Rig      = h2.VerifRig
+	Step     = h2.VerifStep
+	Snapshot = h2.VerifSnapshot
+	Stream   = h2.VerifStream
+	Queued   = h2.VerifQueued
+)
+
+// New builds the two real relays over in-memory framers.
+func New() *Rig { return h2.NewVerifRig() }
+
+// ForwardPreface is h2.forwardPreface.
+func ForwardPreface(server io.Writer, client io.Reader) error {
+	return h2.VerifForwardPreface(server, client)
+}
+
+// ConnectionPreface is the expected client preface.
+func ConnectionPreface() []byte { return h2.VerifConnectionPreface() }
